@@ -6,7 +6,9 @@
      deltas  per stream what arrived during the call, as 1-character strings; an SGR sequence is the symbol "<SGR>",
              any other escape sequence "<ESC>"
      ind     Output._indent of every output after the operation (A-layer observation)
-   P-clauses: P.line.newline  the text's lines arrive, in order, on one stream, followed by exactly one newline
+   P-clauses: P.line.newline  the text's lines arrive unaltered, in order, on one stream (only "\n" separates lines),
+                              followed by exactly one newline (appended to the text as given, or the text's own
+                              trailing newlines normalised to one)
               P.indent.prefix every non-empty line is behind exactly the indentation in force (raw writers: that or none)
    Restored (INVARIANT) holds by construction of the P-state; what the code does after a scope is seen by the next lines. *)
 EXTENDS OutputLines, TraceKit
@@ -50,9 +52,8 @@ Lead(cs) == Len(cs) - Len(DropSpaces(cs))
 \* the lines arrive in order, each after blanks only, and exactly one newline follows the last
 NewlineOK(lines, delta) ==
   LET got == SplitNL(delta, <<>>)
-  IN /\ Len(got) = Len(lines) + 1
-     /\ got[Len(got)] = <<>>
-     /\ \A k \in 1..Len(lines) : DropSpaces(got[k]) = lines[k]
+  IN /\ CountOK(lines, got)
+     /\ \A k \in 1..Len(Body(lines)) : DropSpaces(got[k]) = lines[k]
 PrefixOK(lines, delta, ind, raw) ==
   LET got == SplitNL(delta, <<>>)
   IN \A k \in 1..Len(lines) : (k <= Len(got) /\ lines[k] # <<>>) => (Lead(got[k]) = ind \/ (raw /\ Lead(got[k]) = 0))
